@@ -25,6 +25,10 @@ pub struct Case {
     /// producer-only scene features: bit 0 drop point cloud guids, 1 drop image guids, 2 add bounds,
     /// 3 partial limits, 4 library version string
     pub foreign: u8,
+    /// Some(name): instead of a produced file, the bundled file /repo/testdata/<name> (written by
+    /// E57RefImpl / libE57Format / las2e57) is read by the crate and by the independent decoder
+    #[serde(default)]
+    pub bundled: Option<String>,
 }
 
 pub struct C03;
@@ -140,6 +144,16 @@ pub fn note_layout(st: &mut RunStats, enc: &Encoded, layout: &Layout) {
 
 fn run_case(case: &Case, st: &mut RunStats) -> Outcome<Case> {
     st.evaluations = 1;
+    if let Some(name) = &case.bundled {
+        st.probe("bundled_foreign_file", true);
+        let mut fp = Digest::new();
+        fp.str(name);
+        st.fingerprint(fp.finish());
+        return match refcodec::compare_bundled_with_crate(name) {
+            Ok(()) => Outcome::Held,
+            Err(d) => Outcome::fail("bundled-file-differs", d),
+        };
+    }
     let scene = scene_for(&case.prog, case.foreign, case.layout.seed);
     let enc = encode(&scene, &case.layout);
     if let Err(e) = producer_self_check(&scene, &enc) {
@@ -241,7 +255,7 @@ impl Prop for C03 {
     fn meta(&self) -> Meta {
         Meta {
             level: "exploration",
-            rule: "seeded scenes (C01 generator: 0-4 items, <= 400 points per cloud and in 2.5 % of the runs one cloud of 3 000 - 70 000 points or a blob of 64 - 200 KiB, all record types and widths, extension attributes, full metadata string pool; producer-only features: missing guids, arbitrary bounds, partial limits, library version) encoded by the independent producer under a seeded layout schedule: per cloud a packetisation (whole / k points per packet / ragged: independent byte counts per stream and packet biased to 0, 1, all, cuts inside multi-byte values; up to 4/12/60 packets), index and ignored packets before, between and after data packets, shuffled section order with the XML anywhere and unreferenced padding, omitted optional type attributes (Integer minimum/maximum, scale, offset, precision), XML lexical variants (order of the children of the root and of each point cloud structure, attribute order and quoting, whitespace incl. CRLF, comments, processing instructions, CDATA vs escaped text vs character references vs mixed, empty-element tags, number formats, missing declaration, missing empty data3D/images2D). The producer's output must pass refcodec's own fsck and decode to the scene (self check, else harness error). The crate's reader on a SimDisk with seeded short reads must list the encoded metadata, yield exactly recordCount points with the encoded values, and return every blob. Distinct = hash(scene shape, packet counts, layout switches, section residues); non-trivial = at least one point or payload".into(),
+            rule: "run indices 0..19: the bundled files of /repo/testdata written by E57RefImpl, libE57Format and las2e57, read by the crate and by refcodec's decoder, results compared; other indices: seeded scenes (C01 generator: 0-4 items, <= 400 points per cloud and in 2.5 % of the runs one cloud of 3 000 - 70 000 points or a blob of 64 - 200 KiB, all record types and widths, extension attributes, full metadata string pool; producer-only features: missing guids, arbitrary bounds, partial limits, library version) encoded by the independent producer under a seeded layout schedule: per cloud a packetisation (whole / k points per packet / ragged: independent byte counts per stream and packet biased to 0, 1, all, cuts inside multi-byte values; up to 4/12/60 packets), index and ignored packets before, between and after data packets, shuffled section order with the XML anywhere and unreferenced padding, omitted optional type attributes (Integer minimum/maximum, scale, offset, precision), XML lexical variants (order of the children of the root and of each point cloud structure, attribute order and quoting, whitespace incl. CRLF, comments, processing instructions, CDATA vs escaped text vs character references vs mixed, empty-element tags, number formats, missing declaration, missing empty data3D/images2D). The producer's output must pass refcodec's own fsck and decode to the scene (self check, else harness error). The crate's reader on a SimDisk with seeded short reads must list the encoded metadata, yield exactly recordCount points with the encoded values, and return every blob. Distinct = hash(scene shape, packet counts, layout switches, section residues); non-trivial = at least one point or payload".into(),
             assumptions: vec![
                 "legal layout space is conservative: only choices both the format description and libE57Format-written files support".into(),
                 "prototypes have at least one sized record (a legal all-constant prototype is a listed known finding class, excluded from generation)".into(),
@@ -261,6 +275,7 @@ impl Prop for C03 {
                 "xml_lexical_variants".into(),
                 "optional_type_attributes_omitted".into(),
                 "sections_shuffled_and_padded".into(),
+                "bundled_foreign_file".into(),
                 "data_packet_longer_than_60000_bytes".into(),
                 "stream_slice_longer_than_32767_bytes".into(),
             ],
@@ -282,7 +297,9 @@ impl Prop for C03 {
         let mut l = Rng::stream(rc.run_seed, "layout");
         let layout = Layout::draw(&mut l);
         let mut c = Rng::stream(rc.run_seed, "chunk-dev");
-        Case { prog, layout, rchunk: Chunk::draw(&mut c), foreign: g.below(32) as u8 }
+        let names = refcodec::bundled_names();
+        let bundled = if (rc.index as usize) < names.len() { Some(names[rc.index as usize].clone()) } else { None };
+        Case { prog, layout, rchunk: Chunk::draw(&mut c), foreign: g.below(32) as u8, bundled }
     }
     fn execute(&self, case: &Case, st: &mut RunStats) -> Outcome<Case> {
         run_case(case, st)
@@ -306,7 +323,7 @@ impl Prop for C03 {
             end: End::Finalize,
             knob: None,
         };
-        vec![("F13b legal file whose records all have minimum = maximum".into(), Case { prog, layout: Layout::plain(1), rchunk: Chunk::Full, foreign: 0 })]
+        vec![("F13b legal file whose records all have minimum = maximum".into(), Case { prog, layout: Layout::plain(1), rchunk: Chunk::Full, foreign: 0, bundled: None })]
     }
     fn shrink(&self, case: &Case) -> Vec<Case> {
         let mut out = Vec::new();
